@@ -613,6 +613,7 @@ Proof.
   - (* U1 *) destruct (lk s); [split; [|split]; assumption|pc_move s Epc Hp Hs Hv].
   - (* U2 *) destruct (locked_q s); destruct (legacy_unlock cfg); pc_move s Epc Hp Hs Hv.
   - (* U3 *) destruct (locked_q s); [split; [|split]; assumption|pc_move s Epc Hp Hs Hv].
+  - (* U4 *) pc_move s Epc Hp Hs Hv.
   - (* U5 *) destruct (legacy_unlock cfg);
       [pc_move s Epc Hp Hs Hv | match goal with |- Inv_N _ (a_finish _ ?s1) => fin_move cfg s s1 Epc Hp Hs Hv end].
   - (* U6 *) destruct (legacy_unlock cfg);
@@ -1137,6 +1138,7 @@ Proof.
   - (* U1 *) destruct (lk s); auto. pcm s Epc H.
   - (* U2 *) destruct (locked_q s); destruct (legacy_unlock cfg); pcm s Epc H.
   - (* U3 *) destruct (locked_q s); auto. pcm s Epc H.
+  - (* U4 *) pcm s Epc H.
   - (* U5 *) destruct (legacy_unlock cfg); [pcm s Epc H|finm cfg s Epc H].
   - (* U6 *) destruct (legacy_unlock cfg); [finm cfg s Epc H|pcm s Epc H].
   - (* E1 *) destruct (sync_mode s =? 0); pcm s Epc H.
